@@ -199,6 +199,7 @@ func runCheck(e *Engine, args []string, tier string, timeout int, verif string) 
 	var drift []string
 	trusted := map[string]bool{}
 	kindCount := map[string]int{}
+	var unreachable []string
 	type slowOb struct {
 		name, solver string
 		secs         float64
@@ -210,8 +211,17 @@ func runCheck(e *Engine, args []string, tier string, timeout int, verif string) 
 			continue
 		}
 		n := 0
+		nRet := 0
+		var deadRet []string
 		for _, ob := range fr.Obs {
 			if ob.Kind == "cover" {
+				if strings.Contains(ob.Name, "cover@return") {
+					nRet++
+					if ob.Status != "sat" {
+						deadRet = append(deadRet, ob.Name+" "+ob.Pos)
+					}
+					continue
+				}
 				if ob.Status != "sat" {
 					fmt.Printf("VACUOUS: %s: preconditions/axioms are contradictory (%s)\n", ob.Name, ob.Status)
 					return 2
@@ -232,6 +242,11 @@ func runCheck(e *Engine, args []string, tier string, timeout int, verif string) 
 				failed = append(failed, ob)
 			}
 		}
+		if nRet > 0 && len(deadRet) == nRet {
+			fmt.Printf("VACUOUS: %s: no return of the function is reachable under its contract and the contracts of its callees\n", fr.Key)
+			return 2
+		}
+		unreachable = append(unreachable, deadRet...)
 		solverSecs += fr.SolveSec
 		if n > 0 {
 			funcsUnder = append(funcsUnder, fmt.Sprintf("%s (%d obligations)", fr.Key, n))
@@ -350,6 +365,7 @@ func runCheck(e *Engine, args []string, tier string, timeout int, verif string) 
 		"by_backend":         perSolver,
 		"solver_seconds":     round2(solverSecs),
 		"samples":            samples,
+		"unreachable_returns": unreachable,
 		"slowest_obligations": func() []string {
 			sort.Slice(slow, func(i, j int) bool { return slow[i].secs > slow[j].secs })
 			var out []string
